@@ -599,7 +599,10 @@ def run(ctx):
                     ctx.ob('C04-ESCAPE.field-source-is-not-re-escaped', h, e, not tainted,
                            '' if not tainted else '`%s` escapes text that contains the source of replacement fields: the backslashes and quotes of string literals inside a field are '
                            'escaped a second time (a newline escape inside a field becomes a backslash followed by n)' % norm(e)[:70], node=x.ast)
-        ctx.floor('C04-ESCAPE', nesc, 1, 'escaping operations in the f-string handlers')
+        ctx.count('C04-ESCAPE: escaping operations in the f-string handlers', nesc)
+        ctx.ob('C04-ESCAPE.the-f-string-handlers-escape-at-all', f, f.node, nesc > 0,
+               '' if nesc else 'no escaping operation (repr / %r / encode(<..._escape>)) is left in the f-string handlers: backslashes and control characters of the literal parts are '
+               'written into the regenerated source as they are and read back as escape sequences')
         # ... and it is applied to *every* literal part: under the scenario "a delimiter is given" each definition of the text that reaches the output
         # list has gone through an escaping operation (a guard on the text itself -- `if not text.isprintable()` -- lets a backslash through unescaped)
         def is_esc(e):
@@ -607,7 +610,7 @@ def run(ctx):
                        and 'escape' in str(c.args[0].value) or isinstance(c, ast.Call) and dotted(c.func) in ('repr', 'ascii') for c in ast.walk(e))
         nlit = 0
         for h in {id(b_): b_ for b_ in bodies_}.values():
-            if not any(is_esc(x_) for x_ in ast.walk(h.node)): continue
+            if len(h.params) < 3: continue               # the handler that takes the delimiter (fstring_body(self, node, quote))
             gh = ctx.cg.cfg(h)
             qparams = [p_ for p_ in h.params if p_ not in (h.recv,)]
             def given(text, node):
@@ -654,6 +657,7 @@ def run(ctx):
 
 
 MUTANTS = [
+    dict(id='C04-esc5', file='pony/orm/asttranslation.py', fn='PythonTranslator.fstring_body', old="text.encode('unicode_escape').decode('ascii')", new="text.encode('ascii', 'backslashreplace').decode('ascii')", expect='C04-ESCAPE'),
     dict(id='C04-esc3', file='pony/orm/asttranslation.py', fn='PythonTranslator.fstring_body', old="                    text = text.encode('unicode_escape').decode('ascii').replace(quote[0], '\\\\' + quote[0])",
          new="                    if not text.isascii(): text = text.encode('unicode_escape').decode('ascii')\n                    text = text.replace(quote[0], '\\\\' + quote[0])", expect='C04-ESCAPE.every-literal-part'),
     dict(id='C04-esc4', file='pony/orm/asttranslation.py', fn='PythonTranslator.fstring_body', old="                    text = text.encode('unicode_escape').decode('ascii').replace(quote[0], '\\\\' + quote[0])",
